@@ -1375,16 +1375,18 @@ def macro_from_definition_string(string):
     Construct a Macro or MacroFunction by parsing a string of the form
     MACRO=expansion.
     """
-    tokens = Lexer(string).tokenize()
-    parser = DirectiveParser(tokens)
+    # Everything after the first "=" is the macro expansion
+    (definition, equals, value) = string.partition("=")
+    parser = DirectiveParser(Lexer(definition).tokenize())
 
     (identifier, args) = parser.macro_definition()
-
-    # Any remaining tokens after an "=" are the macro expansion
     if not parser.eol():
-        parser.match_value(Operator, "=")
-        expansion = parser.tokens[parser.pos :]
-        parser.pos = len(parser.tokens)
+        raise ParseError("Expected =.")
+
+    if equals:
+        expansion = Lexer(value).tokenize()
+        for token in expansion:
+            token.col += len(definition) + 1
     else:
         expansion = [NumericalConstant("Unknown", None, False, "1")]
 
